@@ -448,6 +448,10 @@ func VerifC04KeyedSpellings() {
 		case 0:
 			return "8080:80"
 		case 1:
+			if side == "o" {
+				// published written as a YAML number
+				return map[string]any{"target": 80, "published": 8080}
+			}
 			return map[string]any{"target": 80, "published": "8080"}
 		}
 		return map[string]any{"target": 80, "published": "8080", "protocol": "tcp", "mode": "ingress"}
